@@ -107,7 +107,7 @@ class Fam:
     def add_factories(self, public_make_aligned=False):
         ct = self.template("C13_l1.c")
         self.jobs.append((l1.Job("make_aligned", ct, "h_su_make_aligned", enforce="su_make_aligned",
-                                 replace=["su_ctor_default", "su_alloc_aligned", "sq_filln"], includes=INC, timeout=600, object_bits=10,
+                                 replace=["su_ctor_default", "su_alloc_aligned", "sq_filln", "su_dtor"], includes=INC, timeout=600, object_bits=10,
                                  function_label="SU_vector::make_aligned", where="src/SUNalg.cpp:184"), "C13_l1.c", "C14 C15 C16"))
 
     # ----------------------------------------------------------------------------------------------
